@@ -135,6 +135,21 @@ func scenSessMTU(r *Run) {
 		o.Link = LinkCfg{BaseUs: 500, JitterUs: 200}
 		o.CfgA.WriteDelay, o.CfgA.SndWnd = false, 0
 	}
+	skipShrink := r.Spec.Stratum == "skip-shrink"
+	if skipShrink {
+		// a FEC group whose parity is skipped (idle gap of at least one RTO before
+		// its last data packet), then an accepted reduction, then continuous
+		// groups: their parity must respect the new MTU (encoder state carried
+		// over a skipped group must not size later parity)
+		if o.World.FecD == 0 {
+			o.World.FecD, o.World.FecP = 2+t.Choose(ms, 4), 1+t.Choose(ms, 2)
+		}
+		o.BytesAB = 20000 + int64(t.Choose(ms, 60000))
+		o.WModeA = IOMode{Kind: 2, PausePM: 300 + t.Choose(ms, 500), PauseUs: 100000 + t.Choose(ms, 500000)}
+		o.Link = LinkCfg{BaseUs: 500, JitterUs: 200}
+		o.CfgA.WriteDelay, o.CfgA.SndWnd = false, 0
+		o.MaxVirtual = 20 * time.Minute
+	}
 	x := NewXfer(r, o)
 	w := x.W
 	w.ReportParityStraddle = straddle
@@ -182,9 +197,10 @@ func scenSessMTU(r *Run) {
 	if midway {
 		n := 1 + t.Choose(ms, 4)
 		at := time.Duration(0)
-		if straddle {
+		if straddle || skipShrink {
 			n = 6 + t.Choose(ms, 6)
 		}
+		cur := 1400
 		for i := 0; i < n; i++ {
 			at += time.Duration(t.Skewed(ms, 0, 1500000)) * time.Microsecond
 			pickB := t.Chance(ms, 500)
@@ -192,6 +208,16 @@ func scenSessMTU(r *Run) {
 			if straddle {
 				pickB = false
 				m = over + 25 + t.Choose(ms, 1300)
+			}
+			if skipShrink {
+				// mostly a descending staircase, sometimes back up
+				pickB = false
+				if t.Chance(ms, 250) {
+					cur = 1400
+				} else {
+					cur = max(over+25+t.Choose(ms, 60), cur-1-t.Choose(ms, 400))
+				}
+				m = cur
 			}
 			s.At(at, "setmtu", func() {
 				ep := x.A
